@@ -928,6 +928,7 @@ class Sim:
         self.put_exc = None
         self.steps = 0
         self.between = None  # optional callback run after every step (sibling handlers)
+        self._fired = set()  # injections are one-shot
 
     # -- request
     def make_put_request(self):
@@ -989,19 +990,48 @@ class Sim:
             self.link.send(p)
 
     def _inject(self, side, ncall):
-        for inj in self.case.get("inject") or []:
+        for ii, inj in enumerate(self.case.get("inject") or []):
             iside, when, what = inj[0], inj[1], inj[2]
-            if iside != side or when != ncall:
+            if iside != side or when != ncall or ii in self._fired:
                 continue
+            self._fired.add(ii)
             ent = self.src if side == "src" else self.dst
+            if what == "eofcancel":
+                # an EOF (cancel) PDU with the given condition reaches the receiver now: size = file bytes the
+                # sender has emitted so far, checksum = reference checksum of that prefix
+                from .models import ref_checksum
+
+                stid = self.src.h.transaction_id
+                if stid is None:
+                    continue
+                sent = 0
+                for e in self.tlog:
+                    if e[0] == "emit" and e[1] == "src" and pdu_kind(e[3]) == "FD":
+                        sent = max(sent, e[3].offset + len(e[3].file_data))
+                content = self.content or b""
+                conf = pdu_conf_for(self.cfg, stid.seq_num.value)
+                eof = EofPdu(conf, ref_checksum(self.cfg["crc_type"] if self.content is not None else "NULL_CHECKSUM", content[:sent]), sent, condition_code=ConditionCode[inj[3]])
+                self.log.append(("inject", side, "eofcancel", inj[3], sent, ncall))
+                self._forward(self.dst.deliver(eof))
+                continue
             if what == "cancel":
                 right = inj[3] if len(inj) > 3 else True
                 tid = ent.h.transaction_id
-                if not right or tid is None:
+                was_busy = not ent.idle()
+                had_tid = tid is not None
+                if tid is not None and right in ("seq", "src"):
+                    # near misses: same sequence number from another entity / same entity, next sequence number
+                    if right == "seq":
+                        tid = TransactionId(UnsignedByteField((tid.source_id.value + 1) % 250, tid.source_id.byte_len), tid.seq_num)
+                    else:
+                        tid = TransactionId(tid.source_id, UnsignedByteField((tid.seq_num.value + 1) % 250, tid.seq_num.byte_len))
+                    right = False
+                elif right is not True or tid is None:
                     tid = TransactionId(UnsignedByteField(77, 2), UnsignedByteField(12345, 2))
+                    right = False
                 try:
                     r = ent.h.cancel_request(tid)
-                    self.log.append(("inject", side, "cancel", bool(right), r, ncall))
+                    self.log.append(("inject", side, "cancel", bool(right), r, ncall, was_busy, had_tid))
                 except LIB_EXC as e:
                     self.log.append(("inject", side, "cancel", bool(right), "exc:" + type(e).__name__, ncall))
                 except Exception as e:  # noqa: BLE001
